@@ -29,3 +29,29 @@ package vrf
 //@   nosafety
 //@   acquires 6
 //@   locks C25
+
+// Property C26: the RIB maps of a VRF and the registry's VRF map are touched
+// only with their lock held.
+//@ guarded VRF.ribs by mu
+//@ guarded VRF.ribNames by mu
+//@ guarded VRFRegistry.vrfs by mu
+
+//@ contract (*VRFRegistry).CreateVRFIfNotExists, (*VRFRegistry).registerVRF, (*VRFRegistry).UnregisterVRF, (*VRFRegistry).DisposeAll, (*VRFRegistry).List, (*VRFRegistry).GetVRFByName, (*VRF).createLocRIB, (*VRF).ribForAddressFamily
+//@   props C26
+//@   guards C26
+
+//@ contract (*VRF).RIBByName, (*VRF).Dispose, (*VRF).allRIBs, MetricsForVRF
+//@   props C25 C26
+//@   nosafety
+//@   acquires 7
+//@   locks C25
+//@   guards C26
+
+// Called with the VRF lock held.
+//@ contract (*VRF).nameForRIB
+//@   props C25 C26
+//@   nosafety
+//@   requires verif_wheld(&v.mu)
+//@   acquires 8
+//@   locks C25
+//@   guards C26
